@@ -203,10 +203,12 @@ def second(self, first, value):
 
 contract(f"{DC}::DHTCommunity.add_value", "add_value.only-unserializable",
          vars={"s1": BYTES_N(16), "s2": BYTES_N(16), "self": DHT, "key": BYTES_N(20), "value": BYTES,
-               "storage": EFFECT("storage", put={})},
-         instances=[{"n_secrets": 1}], call="self.add_value(key, value, storage, 60)", raises=None,
+               "storage": EFFECT("storage", put={}), "age": REAL},
+         instances=[{"n_secrets": 1}], requires=["age >= 0"], call="self.add_value(key, value, storage, age)", raises=None,
          on_effect={"put": ["args[0] == key", "args[1] == value",
-                            "value[0] == 0 or (value[0] == 1 and ev.kwargs['id_'] is not None)"]},
+                            "value[0] == 0 or (value[0] == 1 and ev.kwargs['id_'] is not None)",
+                            # the lifetime the caller computed - INCLUDING 0 (on_store_request: enough closer nodes known) - is the lifetime stored
+                            "ev.kwargs['max_age'] == age"]},
          ensures=["len(calls('put')) <= 1"],
          covers=["len(calls('put')) == 1"],
          note="only values that unserialize (for signed ones: verify) are stored; signed values are stored under hash(signer)")
